@@ -119,8 +119,11 @@ def step(server):
 
 
 D = DatasetId("t", "0")
+E_DS = DatasetId("e", "0")  # a second dataset on the source host
+Y_DS = DatasetId("y", "0")  # a dataset on the target host, transferred the other way
 VALUE, DESER = b"\x01\x02payload-bytes", "cloudpickle.loads"
-COMMANDS = ["transmit", "transmit-again", "fetch", "purge-target", "purge-source-after-arrival"]
+VALUES = {D: (VALUE, DESER), E_DS: (b"EEEE", "cloudpickle.loads"), Y_DS: (b"YY", "other.loads")}
+COMMANDS = ["transmit", "transmit-again", "fetch", "purge-target", "purge-source-after-arrival", "transmit-E", "transmit-back"]
 
 
 class Xfer(Harness):
@@ -138,11 +141,13 @@ class Xfer(Harness):
         F = 3 if tier == "quick" else 5
         S = 4 if tier == "quick" else 6
         out = []
-        lists = [["transmit"], ["fetch"], ["transmit", "transmit-again"], ["transmit", "fetch"], ["transmit", "purge-target"], ["transmit", "purge-source-after-arrival"]]
+        lists = [["transmit"], ["fetch"], ["transmit", "transmit-again"], ["transmit", "fetch"], ["transmit", "purge-target"], ["transmit", "purge-source-after-arrival"],
+                 ["transmit", "transmit-E"], ["transmit-back", "transmit"], ["transmit-E", "transmit", "purge-target"]]
         if tier == "thorough":
-            lists += [["transmit", "transmit-again", "purge-target"], ["transmit", "fetch", "purge-source-after-arrival"], ["fetch", "transmit", "transmit-again"]]
+            lists += [["transmit", "transmit-again", "purge-target"], ["transmit", "fetch", "purge-source-after-arrival"], ["fetch", "transmit", "transmit-again"],
+                      ["transmit-back", "transmit-E", "transmit"], ["transmit-E", "transmit", "fetch"]]
         for cl in lists:
-            base = {"commands": cl, "F": F, "S": S}
+            base = {"commands": cl, "F": F if len(cl) < 3 else F - 1, "S": S if len(cl) < 3 else S - 1}
             out += [{**base, "_prefix": p} for p in split_prefixes(self.body, base, 8 if tier == "quick" else 32)]
         return out
 
@@ -150,7 +155,7 @@ class Xfer(Harness):
         return 100.0 if tier == "quick" else 900.0
 
     def bounds(self, tier):
-        return {"hosts": 2, "commands": "1..2" if tier == "quick" else "1..3", "faulty_transmissions_F": 3 if tier == "quick" else 5, "free_steps_S": 4 if tier == "quick" else 6}
+        return {"hosts": 2, "commands": "1..3" if tier == "quick" else "1..3 (more lists)", "datasets": "two on the source host, one on the target host (transferred back)", "unrelated_controller_messages_first": "0..1 (lists with a back-transfer)", "faulty_transmissions_F": 3 if tier == "quick" else 5, "free_steps_S": 4 if tier == "quick" else 6}
 
     def functions(self):
         return [ds_mod.DataServer.recv_loop, ds_mod.DataServer.send_payload, ds_mod.DataServer.store_payload, ds_mod.DataServer.maybe_clean, comms.Listener, comms.send_data, comms.callback]
@@ -164,7 +169,14 @@ class Xfer(Harness):
             sender = comms.ReliableSender(C_ADDR, 800)
             sender.add_host("data.hA", A.daddress)
             sender.add_host("data.hB", B.daddress)
-            A._store.data[ds2shmid(D)] = (VALUE, DESER)
+            A._store.data[ds2shmid(D)] = VALUES[D]
+            A._store.data[ds2shmid(E_DS)] = VALUES[E_DS]
+            B._store.data[ds2shmid(Y_DS)] = VALUES[Y_DS]
+            sender.add_host("elsewhere", "tcp://else:1")
+            for _ in range(ch.pick(2, "noise") if "transmit-back" in params["commands"] else 0):
+                # unrelated acknowledged traffic shifts the controller's message counter against its transfer counter
+                sender.send("elsewhere", DatasetPurge(ds=DatasetId("zz", "0")))
+                sender.ack(sender.idx - 1)  # ... and was acknowledged long ago
             net = Net(ch, params["F"])
             net_addrs = {A.daddress, B.daddress, C_ADDR}
             inner = net.__call__
@@ -205,6 +217,12 @@ class Xfer(Harness):
                 if c in ("transmit", "transmit-again"):
                     sender.send("data.hA", DatasetTransmitCommand(source="hA", target="hB", daddress=B.daddress, ds=D, idx=idx))
                     idx += 1
+                elif c == "transmit-E":
+                    sender.send("data.hA", DatasetTransmitCommand(source="hA", target="hB", daddress=B.daddress, ds=E_DS, idx=idx))
+                    idx += 1
+                elif c == "transmit-back":
+                    sender.send("data.hB", DatasetTransmitCommand(source="hB", target="hA", daddress=A.daddress, ds=Y_DS, idx=idx))
+                    idx += 1
                 elif c == "fetch":
                     sender.send("data.hA", DatasetTransmitCommand(source="hA", target="controller", daddress=C_ADDR, ds=D, idx=idx))
                     idx += 1
@@ -213,8 +231,11 @@ class Xfer(Harness):
                     purged_target = True
                 issued.append(c)
 
+            def published(server, ds):
+                return sum(1 for f in fakezmq.NET.queues.get(server.maddress, []) if isinstance((m := pickle.loads(f[0])), DatasetPublished) and m.ds == ds)
+
             def published_at_B():
-                return sum(1 for f in fakezmq.NET.queues.get(B.maddress, []) if isinstance((m := pickle.loads(f[0])), DatasetPublished) and m.ds == D)
+                return published(B, D)
 
             def step_ctrl():
                 for m in ctrl.recv_messages(0):
@@ -310,6 +331,15 @@ class Xfer(Harness):
             for p in fetch_payloads:
                 if bytes(p.value) != VALUE or p.header.deser_fun != DESER or p.header.ds != D:
                     raise Violation("fetched-bytes-differ", repr(p)[:200])
+            for c, srv, ds in (("transmit-E", B, E_DS), ("transmit-back", A, Y_DS)):
+                if c in issued:
+                    k2 = ds2shmid(ds)
+                    if k2 not in srv._store.data:
+                        raise Violation("transfer-never-stored", f"{ds} at {srv.host}; faults={net.log} issued={issued}")
+                    if srv._store.data[k2] != VALUES[ds]:
+                        raise Violation("transferred-copy-differs", f"{ds}: {srv._store.data[k2]!r}")
+                    if published(srv, ds) != 1:
+                        raise Violation("arrival-announced-wrong-number-of-times", f"{ds}: {published(srv, ds)} announcements")
             for srv in (A, B):
                 if srv.ds_proc_tp.pending() or srv.futs_in_progress:
                     raise Violation("jobs-left-running-at-quiescence", srv.host)
